@@ -10,12 +10,15 @@ import (
 	"context"
 	"encoding/json"
 	"fmt"
+	"strings"
 	"time"
 
 	"github.com/superfly/macaroon"
+	"github.com/superfly/macaroon/auth"
 	"github.com/superfly/macaroon/bundle"
 	"github.com/superfly/macaroon/flyio"
 	"github.com/superfly/macaroon/resset"
+	"github.com/vmihailenco/msgpack/v5"
 )
 
 func guard(fail *string, what *string) {
@@ -417,6 +420,319 @@ func cacheVsPlainOnAliases() (fail string) {
 			fresh, _ := bundle.ParseBundle(bLocs[0], b.Header())
 			if f, d := sets(fresh, plain), sets(b, plain); f != d {
 				return fmt.Sprintf("%s (variant %d) verifies to %.90q, a fresh parse of its own header to %.90q", name, variant, d, f)
+			}
+		}
+	}
+	return ""
+}
+
+// repeatedFieldForms: a token sent as a msgpack MAP whose field names repeat (legal input: the decoder takes structs as maps):
+// every combination of a decoy and the genuine value for Nonce (2- and 3-field decoys, proof flag set), caveats, location, tail.
+func repeatedFieldForms(nonceRaw, cavsRaw []byte, loc string, tail []byte) [][]byte {
+	var out [][]byte
+	decoys := [][]byte{
+		{0x93, 0xc4, 0x01, 'x', 0xc4, 0x01, 'y', 0xc3}, // three fields, proof = true
+		{0x93, 0xc4, 0x01, 'x', 0xc4, 0x01, 'y', 0xc2},
+		{0x92, 0xc4, 0x01, 'x', 0xc4, 0x01, 'y'},
+	}
+	str := func(s string) []byte { return append([]byte{0xa0 | byte(len(s))}, s...) }
+	bin := func(b []byte) []byte { return append([]byte{0xc4, byte(len(b))}, b...) }
+	for _, d := range decoys {
+		for _, genuineLast := range []bool{true, false} {
+			b := []byte{0x85}
+			first, second := d, nonceRaw
+			if !genuineLast {
+				first, second = nonceRaw, d
+			}
+			b = append(append(b, str("Nonce")...), first...)
+			b = append(append(b, str("Nonce")...), second...)
+			b = append(append(b, str("Location")...), str(loc)...)
+			b = append(append(b, str("UnsafeCaveats")...), cavsRaw...)
+			b = append(append(b, str("Tail")...), bin(tail)...)
+			out = append(out, b)
+		}
+	}
+	return out
+}
+
+// staleNonceForgeryOracle (C07, C01): the holder of an old-format (two-field nonce) token, without the key, appends an
+// attestation, finalises the tail the way proofs are finalised, and presents the result in every wire form he can think of -
+// arrays, maps, maps naming the Nonce field twice with a three-field decoy carrying proof = true: none is accepted, none yields
+// the attestation.
+func staleNonceForgeryOracle() (fail string) {
+	what := "forged attestation on an old-format token"
+	defer guard(&fail, &what)
+	key := macaroon.NewSigningKey()
+	kid, rnd := []byte("k"), bytes.Repeat([]byte{7}, 16)
+	for _, withCav := range []bool{false, true} {
+		nonce0 := append(append([]byte{0x92, 0xc4, byte(len(kid))}, kid...), append([]byte{0xc4, byte(len(rnd))}, rnd...)...)
+		tail := macaroon.VerifSign(key, nonce0)
+		var cavs []macaroon.Caveat
+		if withCav {
+			cavs = append(cavs, &flyio.Organization{ID: 1, Mask: resset.ActionAll})
+			opc, _ := macaroon.NewCaveatSet(cavs[0]).MarshalMsgpack()
+			tail = macaroon.VerifSign(tail, opc)
+		}
+		uid := auth.FlyioUserID(42)
+		opc, _ := macaroon.NewCaveatSet(&uid).MarshalMsgpack()
+		ftail := macaroon.VerifFinalize(macaroon.VerifSign(tail, opc))
+		fcavs, _ := macaroon.NewCaveatSet(append(append([]macaroon.Caveat{}, cavs...), &uid)...).MarshalMsgpack()
+		loc := "https://perm.stale.test"
+		forms := repeatedFieldForms(nonce0, fcavs, loc, ftail)
+		// plain array forms with a 3-field nonce claiming proof
+		n3 := append(append([]byte{0x93}, nonce0[1:]...), 0xc3)
+		arr := append([]byte{0x94}, n3...)
+		arr = append(append(arr, append([]byte{0xa0 | byte(len(loc))}, loc...)...), fcavs...)
+		arr = append(arr, append([]byte{0xc4, byte(len(ftail))}, ftail...)...)
+		forms = append(forms, arr)
+		for _, f := range forms {
+			tok, err := macaroon.Decode(f)
+			if err != nil {
+				continue
+			}
+			set, err := tok.Verify(key, nil, nil)
+			if err != nil {
+				continue
+			}
+			if n := len(macaroon.GetCaveats[*auth.FlyioUserID](set)); n > 0 {
+				return fmt.Sprintf("the holder of an old-format token, without the key, obtained an accepted token carrying %d attestation(s): wire form %x", n, f)
+			}
+			return fmt.Sprintf("a hand-extended old-format token is accepted: wire form %x", f)
+		}
+	}
+	return ""
+}
+
+// repeatedFieldReencodeOracle (C11): whatever wire form of a token is accepted - including maps whose field names repeat -
+// the verdict does not change when the decoded token is encoded and decoded again (what is signed is what was decoded).
+func repeatedFieldReencodeOracle() (fail string) {
+	what := "re-encoding a token decoded from a map with repeated fields"
+	defer guard(&fail, &what)
+	key := macaroon.NewSigningKey()
+	for _, v := range []int{0, 1} {
+		for _, proof := range []bool{false, true} {
+			if v == 0 && proof {
+				continue
+			}
+			kid, rnd := []byte("k"), bytes.Repeat([]byte{9}, 16)
+			n := macaroon.VerifNonce(kid, rnd, proof, v)
+			nonceRaw, err := macaroon.VerifEncode(&n)
+			if err != nil {
+				return "setup: " + err.Error()
+			}
+			tail := macaroon.VerifSign(key, nonceRaw)
+			org := &flyio.Organization{ID: 1, Mask: resset.ActionAll}
+			opc, _ := macaroon.NewCaveatSet(org).MarshalMsgpack()
+			tail = macaroon.VerifSign(tail, opc)
+			for _, claimFinal := range []bool{false, true} {
+				t := tail
+				if claimFinal {
+					t = macaroon.VerifFinalize(tail)
+				}
+				for _, f := range repeatedFieldForms(nonceRaw, opc, "https://perm.rep.test", t) {
+					tok, err := macaroon.Decode(f)
+					if err != nil {
+						continue
+					}
+					_, err1 := tok.Verify(key, nil, nil)
+					re, err := macaroon.VerifEncode(tok)
+					if err != nil {
+						continue
+					}
+					tok2, err := macaroon.Decode(re)
+					if err != nil {
+						return fmt.Sprintf("the re-encoding of an accepted wire form does not decode: %x", f)
+					}
+					_, err2 := tok2.Verify(key, nil, nil)
+					if (err1 == nil) != (err2 == nil) {
+						return fmt.Sprintf("a token decoded from %x verifies with %v, its own re-encoding with %v (nonce version %d, proof %v)", f, err1, err2, v, proof)
+					}
+					if err1 == nil && (tok.Nonce.Proof != proof) {
+						return fmt.Sprintf("an accepted token decoded from %x has proof flag %v, the signed nonce says %v", f, tok.Nonce.Proof, proof)
+					}
+				}
+			}
+		}
+	}
+	return ""
+}
+
+// smallCacheOracle (C13, C14): caches of capacity 1, 2 and "exactly full": headers with more valid permission tokens than the
+// cache holds, tokens verified before alone, in both orders: every answer is the plain verifier's (how many verified sets,
+// what each bundle then clears).
+func smallCacheOracle() (fail string) {
+	what := "verification through a cache smaller than the header"
+	defer guard(&fail, &what)
+	key := macaroon.NewSigningKey()
+	plain := bundle.WithKey([]byte("k"), key, nil)
+	var hdrs []string
+	for i := 0; i < 4; i++ {
+		m, _ := macaroon.New([]byte("k"), bLocs[0], key)
+		m.Add(&flyio.Organization{ID: uint64(i + 1), Mask: resset.ActionAll})
+		s, _ := m.String()
+		hdrs = append(hdrs, s)
+	}
+	answer := func(v bundle.Verifier, hdr string) string {
+		b, err := bundle.ParseBundle(bLocs[0], hdr)
+		if err != nil {
+			return "parse error"
+		}
+		sets, err := b.Verify(context.Background(), v)
+		out := fmt.Sprintf("%d verified (err %v);", len(sets), err != nil)
+		for i := uint64(1); i <= 4; i++ {
+			o := i
+			out += fmt.Sprintf(" org%d=%v", i, b.Validate(&flyio.Access{OrgID: &o, Action: resset.ActionRead}) == nil)
+		}
+		return out
+	}
+	for _, capacity := range []int{1, 2, 3} {
+		for _, warm := range [][]int{nil, {1}, {0, 1}, {2, 1, 0}} {
+			cache := bundle.NewVerificationCache(plain, time.Hour, capacity)
+			for _, w := range warm {
+				answer(cache, hdrs[w])
+			}
+			for _, pick := range [][]int{{0, 1}, {1, 0}, {0, 1, 2}, {2, 0, 1, 3}, {0}} {
+				var parts []string
+				for _, p := range pick {
+					parts = append(parts, hdrs[p])
+				}
+				hdr := strings.Join(parts, ",")
+				for rep := 0; rep < 2; rep++ {
+					if got, want := answer(cache, hdr), answer(plain, hdr); got != want {
+						return fmt.Sprintf("cache of capacity %d (warmed with %v), header of %d valid tokens, presentation %d: through the cache %q, directly %q", capacity, warm, len(pick), rep+1, got, want)
+					}
+				}
+			}
+		}
+	}
+	return ""
+}
+
+// nonCanonicalInBundleOracle (C13): a header whose tokens come in wire forms the library would not write (map-encoded,
+// full-width integers, trailing bytes) authorises through a bundle exactly what each token authorises when verified alone.
+func nonCanonicalInBundleOracle() (fail string) {
+	what := "non-canonical token encodings in a bundle"
+	defer guard(&fail, &what)
+	key := macaroon.NewSigningKey()
+	mm, _ := macaroon.New([]byte("k"), bLocs[0], key)
+	mm.Add(&flyio.Organization{ID: 1, Mask: resset.ActionAll}, &macaroon.ValidityWindow{NotBefore: 0, NotAfter: 1 << 40})
+	canon, _ := mm.Encode()
+	variants := [][]byte{append(append([]byte{}, canon...), 0x00)}
+	if v, err := msgpack.Marshal(mm); err == nil {
+		variants = append(variants, v)
+	}
+	var buf bytes.Buffer
+	enc := msgpack.NewEncoder(&buf)
+	enc.UseArrayEncodedStructs(true)
+	enc.UseCompactInts(false)
+	if enc.Encode(mm) == nil {
+		variants = append(variants, buf.Bytes())
+	}
+	one := uint64(1)
+	acc := &flyio.Access{OrgID: &one, Action: resset.ActionRead}
+	for vi, v := range variants {
+		dm, err := macaroon.Decode(v)
+		if err != nil {
+			continue
+		}
+		set, verr := dm.Verify(key, nil, nil)
+		alone := verr == nil && set.Validate(acc) == nil
+		b, err := bundle.ParseBundle(bLocs[0], macaroon.ToAuthorizationHeader(v))
+		if err != nil {
+			if alone {
+				return fmt.Sprintf("variant %d of a valid token is accepted alone, its header does not parse as a bundle: %v", vi, err)
+			}
+			continue
+		}
+		_, berr := b.Verify(context.Background(), bundle.WithKey([]byte("k"), key, nil))
+		if got := berr == nil && b.Validate(acc) == nil; got != alone {
+			return fmt.Sprintf("variant %d of a valid token (%d bytes, canonical %d): verified alone it clears the request: %v; in a bundle: %v (bundle error %v)", vi, len(v), len(canon), alone, got, b.Error())
+		}
+		ab, _ := bundle.ParseBundle(bLocs[0], "")
+		if err := ab.AddTokens(macaroon.ToAuthorizationHeader(v)); err != nil && alone {
+			return fmt.Sprintf("AddTokens refuses variant %d of a valid token: %v", vi, err)
+		}
+	}
+	return ""
+}
+
+// nilKeyIDOracle (C11, C05): a token minted with a nil (or empty) key-id round-trips byte for byte and verifies.
+func nilKeyIDOracle() (fail string) {
+	what := "token with a nil key-id"
+	defer guard(&fail, &what)
+	key := macaroon.NewSigningKey()
+	for _, kid := range [][]byte{nil, {}, {0}} {
+		m, err := macaroon.New(kid, "https://perm.nilkid.test", key)
+		if err != nil {
+			continue
+		}
+		m.Add(&flyio.Organization{ID: 1, Mask: resset.ActionAll})
+		enc, _ := m.Encode()
+		dm, err := macaroon.Decode(enc)
+		if err != nil {
+			return fmt.Sprintf("a token minted with key-id %#v does not decode: %v", kid, err)
+		}
+		if re, _ := dm.Encode(); !bytes.Equal(re, enc) {
+			return fmt.Sprintf("a token minted with key-id %#v re-encodes differently after decoding: %x -> %x", kid, enc, re)
+		}
+		if _, err := dm.Verify(key, nil, nil); err != nil {
+			return fmt.Sprintf("a token minted with key-id %#v is rejected after a decode: %v", kid, err)
+		}
+		nb, _ := macaroon.VerifEncode(&dm.Nonce)
+		n2, err := macaroon.DecodeNonce(enc) // reads the nonce off the front of an encoded token
+		if err != nil {
+			return "DecodeNonce of an encoded token fails: " + err.Error()
+		}
+		if nb2, _ := macaroon.VerifEncode(&n2); !bytes.Equal(nb, nb2) {
+			return fmt.Sprintf("the nonce DecodeNonce reads off a token encodes as %x, the token's own as %x", nb2, nb)
+		}
+	}
+	return ""
+}
+
+// spareCapacityAliasOracle (C14, C13): token objects that share one parsed macaroon whose caveat list has spare capacity (65+
+// caveats off the wire, or attenuated before): attenuating through two bundles in turn leaves each bundle a token that still
+// verifies, through the cache and directly alike.
+func spareCapacityAliasOracle() (fail string) {
+	what := "attenuating bundles that share a parsed macaroon with spare capacity"
+	defer guard(&fail, &what)
+	key := macaroon.NewSigningKey()
+	plain := bundle.WithKey([]byte("k"), key, nil)
+	for _, ncav := range []int{0, 2, 65, 70} {
+		for _, prior := range []int{0, 1, 3} {
+			m, _ := macaroon.New([]byte("k"), bLocs[0], key)
+			for i := 0; i < ncav; i++ {
+				m.Add(&macaroon.ValidityWindow{NotBefore: int64(i), NotAfter: 1 << 40})
+			}
+			hdr, _ := m.String()
+			b, _ := bundle.ParseBundle(bLocs[0], hdr)
+			for i := 0; i < prior; i++ {
+				b.Attenuate(&macaroon.ValidityWindow{NotBefore: int64(1000 + i), NotAfter: 1 << 40})
+			}
+			cache := bundle.NewVerificationCache(plain, time.Hour, 16)
+			s := b.Select(bundle.KeepAll)
+			if _, err := b.Verify(context.Background(), cache); err != nil {
+				return "setup: " + err.Error()
+			}
+			s.Verify(context.Background(), cache)
+			rd, wr := resset.ActionRead, resset.ActionAll
+			if err := s.Attenuate(&rd); err != nil {
+				return "setup: " + err.Error()
+			}
+			if err := b.Attenuate(&wr); err != nil {
+				return "setup: " + err.Error()
+			}
+			for name, x := range map[string]*bundle.Bundle{"derived": s, "parent": b} {
+				for _, v := range []bundle.Verifier{cache, plain} {
+					cp := x.Select(bundle.KeepAll)
+					if _, err := cp.Verify(context.Background(), v); err != nil {
+						return fmt.Sprintf("token of %d caveats, %d earlier attenuations: after both bundles attenuated, the %s bundle's own token no longer verifies: %v", ncav, prior, name, err)
+					}
+				}
+				fresh, _ := bundle.ParseBundle(bLocs[0], x.Header())
+				if _, err := fresh.Verify(context.Background(), plain); err != nil {
+					return fmt.Sprintf("token of %d caveats, %d earlier attenuations: the %s bundle prints a header that does not verify: %v", ncav, prior, name, err)
+				}
 			}
 		}
 	}
